@@ -6,3 +6,8 @@ open ZCV.Props.C02
 #print axioms C02_text_value_eq_denote'
 #print axioms C02_end_to_end
 #print axioms C02_end_to_end_stock
+#print axioms C02_load_value_eq
+#print axioms C02_load_value_eq_norm
+#print axioms C02_load_value_eq_no_overrides
+#print axioms C02_text_value_eq_denote_from_general
+#print axioms C02_end_to_end_general
